@@ -242,6 +242,23 @@ func check(c Case) pbt.Verdict {
 		if sig != "" {
 			return pbt.Failf(rt.name+":"+sig, "route %s: %s\nprogram:\n%s\nfile text:\n%q", rt.name, msg, c.Text(), c.FileText)
 		}
+		// the routes also agree with each other exactly: what a handler saw of a failing builtin (its error text …)
+		// is left open by the definition, but must not depend on the route
+		if rt.name != routes[0].name {
+			if !rt.noVal && !hasMap(o.Val) {
+				if sig, msg := box.CompareResults(routes[0].r, rt.r, false); sig != "" && !strings.HasPrefix(sig, "error-") {
+					return pbt.Failf(rt.name+":differs-from-"+routes[0].name+":"+sig, "route %s vs route %s: %s\nprogram:\n%s\nfile text:\n%q", routes[0].name, rt.name, msg, c.Text(), c.FileText)
+				}
+			}
+			if len(rt.trace) == len(routes[0].trace) {
+				for i := range rt.trace {
+					if !val.EqExact(rt.trace[i], routes[0].trace[i]) {
+						return pbt.Failf(rt.name+":differs-from-"+routes[0].name+":effect", "route %s vs route %s: effect #%d is %s on the one and %s on the other\nprogram:\n%s\nfile text:\n%q",
+							routes[0].name, rt.name, i, val.Canon(routes[0].trace[i]), val.Canon(rt.trace[i]), c.Text(), c.FileText)
+					}
+				}
+			}
+		}
 		if d := box.CompareTrace(modelTrace, rt.trace); d != "" {
 			return pbt.Failf(rt.name+":effects-differ", "route %s: %s\nprogram:\n%s\nfile text:\n%q", rt.name, d, c.Text(), c.FileText)
 		}
